@@ -11,6 +11,8 @@ import SkNet.Model.Ingest
 import SkNet.Model.Csv
 import SkNet.Model.Persist
 import SkNet.Spec.Ingest
+import SkNet.Model.GraphML
+import SkNet.Spec.GraphML
 
 namespace SkNet.Drive.C18
 open SkNet SkNet.Proto SkNet.Ingest
@@ -195,7 +197,91 @@ def optChar? (s : String) : Option (Option Char) :=
     | [c] => some (some c)
     | _ => none
 
+/-! ### GraphML tokens -/
+
+def optStr? (s : String) : Option (Option String) :=
+  if s == "_" then some none else (str? s).map some
+
+/-- a child of the graph element: `tag,id,source,target,directed,data` with data = `-` or `key:text` joined by `|` -/
+def gchild? (s : String) : Option GraphML.Child :=
+  match s.splitOn "," with
+  | [tag, id, src, dst, dir, data] => do
+    let data ← if data == "-" then some [] else (data.splitOn "|").mapM fun t =>
+      match (t.splitOn ":") with
+      | [k, v] => do pure (← str? k, ← str? v)
+      | _ => none
+    pure { tag := ← str? tag, id := ← optStr? id, source := ← optStr? src, target := ← optStr? dst,
+           directed := ← optStr? dir, data := data }
+  | _ => none
+
+/-- a key element: `id,name,type,defaults` with defaults = `-` or texts joined by `|` -/
+def gkey? (s : String) : Option GraphML.Key :=
+  match s.splitOn "," with
+  | [id, name, type, defs] => do
+    let defs ← if defs == "-" then some [] else (defs.splitOn "|").mapM str?
+    pure { id := ← optStr? id, name := ← optStr? name, type := ← optStr? type, defaults := defs }
+  | _ => none
+
+def gdoc? (hasGraph ed ni keys children : String) : Option GraphML.Doc := do
+  let keys ← if keys == "-" then some [] else (keys.splitOn ";").mapM gkey?
+  let children ← if children == "-" then some [] else (children.splitOn ";").mapM gchild?
+  pure { hasGraph := ← bool? hasGraph, edgedefault := ← optStr? ed, nodeids := ← optStr? ni,
+         children := children, keys := keys }
+
+def showStrNames : Option (List String) → String
+  | none => "_"
+  | some l => if l.isEmpty then "-" else ",".intercalate (l.map encStr)
+
+/-- the specification on a well-formed document (distinct node ids, end points declared, numeric weights):
+    names are the node ids in order, entry (i, j) collects the weights of the edges i → j and of the
+    undirected edges j → i -/
+def graphmlSpec (weightKey : String) (doc : GraphML.Doc) (n : Nat) (dense : List (List Rat))
+    (names : Option (List String)) : String :=
+  let nodes := doc.children.filter GraphML.isNode
+  let edges := doc.children.filter GraphML.isEdge
+  let ids := nodes.map fun c => c.id.getD ""
+  let canonical := doc.nodeids == some "canonical"
+  let wkey := (doc.keys.filter fun k => k.name == some weightKey).getLast?
+  let kind : Ingest.Kind := match wkey with
+    | some k => ((k.type.bind GraphML.kindOfType).getD .bool)
+    | none => .bool
+  let dflt : Rat := match wkey with
+    | some k => (k.defaults.getLast?.bind parseNum).getD 1
+    | none => 1
+  let wid := wkey.bind (·.id)
+  let number (s : Option String) : Nat :=
+    if canonical then ((parseInt (String.ofList ((s.getD "").toList.drop 1))).getD 0).toNat
+    else Ingest.pos (s.getD "") ids
+  let res : List GraphML.REdge := edges.map fun c =>
+    let w := match (c.data.filter fun d => some d.1 == wid).getLast? with
+      | some d => if kind == .bool then (if d.2 == "" then 0 else 1) else (parseNum d.2).getD 0
+      | none => dflt
+    let und := match c.directed with
+      | some d => d != "true"
+      | none => doc.edgedefault == some "undirected"
+    ⟨number c.source, number c.target, w, und⟩
+  let okNames := if canonical then names.isNone else names == some ids
+  let bad := (List.range n).flatMap fun i => (List.range n).filterMap fun j =>
+    let want := GraphML.specEntry kind res i j
+    if (dense.getD i []).getD j 0 == want then none else some s!"({i},{j}):want={showRat want}"
+  if n != nodes.length then s!"fails nodes={nodes.length}"
+  else if !okNames then "fails names"
+  else if dense.length != n || !dense.all (·.length == n) then "fails lengths"
+  else if !bad.isEmpty then "fails entry" ++ ",".intercalate (bad.take 4)
+  else "holds"
+
 def handle : Handler
+  | "c18.graphml", [wk, hg, ed, ni, keys, children] => some <| Option.getD (do
+      let doc ← gdoc? hg ed ni keys children
+      let res := GraphML.fromGraphml parseNum (fun s => (parseInt s).bind fun z => if z < 0 then none else some z.toNat)
+        (← str? wk) doc
+      match res with
+      | .ok r => some s!"ok {r.matrix.nRow} {showDense r.matrix} {showStrNames r.names}"
+      | .error e => some ("err " ++ e.show)) "bad-args"
+  | "c18.spec_graphml", [wk, hg, ed, ni, keys, children, n, dense, names] => some <| Option.getD (do
+      let doc ← gdoc? hg ed ni keys children
+      let names ← if names == "_" then some none else (strs? names).map some
+      some (graphmlSpec (← str? wk) doc (← n.toNat?) (← dense? dense) names)) "bad-args"
   | "c18.edges", [d, b, w, r, sd, sh, mo, es] => some <| Option.getD (do
       let f ← flags? d b w r sd sh mo
       let es ← edges? es
